@@ -82,8 +82,18 @@ var specs = map[string]*propSpec{
 		Thorough: tierSpec{Runs: 600000, Budget: 15 * time.Minute, Variants: []string{"v0", "v1", "v3"}},
 		Real:     []string{"graphql/handler/transport SSE and MultipartMixed (with sync.Mutex rewritten to a durable channel mutex in the scratch copy)", "graphql/handler.Server", "graphql/executor", "generated executor incl. @defer machinery", "time.Ticker / timers on synctest's fake clock"},
 		Stubbed:  []string{"http.ResponseWriter+Flusher (simhttp.Writer: every Write parks, may be split at a seeded byte, may fail)", "request context (client disconnect)", "subscription source channel (harness emits)", "resolvers (universal resolver, parked)", "net/http server loop (ServeHTTP is called directly)"},
-		Rule: "one run = one streamed response: SSE (subscription with 0-6 emissions, query, @defer query, or a gate error) with KeepAlivePingInterval in {0, 2us, 1ms, 10s}, or multipart/mixed (@defer corpus) with DeliveryTimeout in {1, 5, 50 ms}; the scheduler interleaves resolver releases, emissions, clock advances from a menu around the interval (I-1us, I, I+1us, I/2, 2I, 1us), write completions (each Write may be split at a seeded byte and parked half-way) and, in a quarter of the runs, a client disconnect. Oracle: no Write enters while another is in progress; strict SSE parse / mime/multipart parse with valid JSON in every event/part; payloads equal, exactly once and in order, those recorded by an innermost response interceptor; exactly one complete event / closing delimiter, last; after a disconnect only prefix properties. non-trivial = at least one payload was produced; distinct = hash of (transport, interval, operation, emissions, event log)",
+		Rule: "one run = one streamed response: SSE (subscription with 0-6 emissions, query, @defer query, or a gate error) with KeepAlivePingInterval in {0, 2us, 1ms, 10s}, or multipart/mixed (@defer corpus) with DeliveryTimeout in {1, 5, 50 ms}; the scheduler interleaves resolver releases, emissions, clock advances from a menu around the interval (I-1us, I, I+1us, I/2, 1us; never while a ticker goroutine is parked, so that no tick queues up), write completions (each Write may be split at a seeded byte and parked half-way) and, in a quarter of the runs, a client disconnect. Oracle: no Write enters while another is in progress; strict SSE parse / mime/multipart parse with valid JSON in every event/part; payloads equal, exactly once and in order, those recorded by an innermost response interceptor; exactly one complete event / closing delimiter, last; after a disconnect only prefix properties. non-trivial = at least one payload was produced; distinct = hash of (transport, interval, operation, emissions, event log)",
 		Faults: "slow client (split+parked writes), client disconnect (write failure + context cancellation) at a seeded point, keep-alive and flush ticks landing before/at/after payload production",
 		Assume: []string{"pings written after the handler returned are not judged (outside the statement)", "Flush itself is instantaneous"},
+	},
+	"C11": {
+		ID: "C11", Scenario: "wssim", Race: true, Level: "exploration", Cpu: 4, Mutex: true,
+		Quick:    tierSpec{Runs: 8000, Budget: 75 * time.Second, Variants: []string{"v0"}},
+		Thorough: tierSpec{Runs: 400000, Budget: 15 * time.Minute, Variants: []string{"v0", "v1", "v3"}},
+		Real:     []string{"graphql/handler/transport Websocket (both subprotocols, init, keep-alive/ping tickers, closeOnCancel; sync.Mutex rewritten to a durable channel mutex in the scratch copy)", "gorilla/websocket server and client", "graphql/handler.Server, graphql/executor, generated executor (subscription path)", "timers and read deadlines on synctest's fake clock over net.Pipe"},
+		Stubbed:  []string{"network: net.Pipe whose server half parks/fails writes and records frames", "InitFunc/CloseFunc/ErrorFunc callbacks", "subscription sources (harness emits unique increasing values, ends, reports AddSubscriptionError)", "resolvers (universal resolver)", "net/http server loop (request read from the pipe, ServeHTTP called directly)"},
+		Rule: "one run = one websocket session under graphql-ws or graphql-transport-ws with seeded InitFunc behaviour (none/accept/accept+payload/reject/stall), InitTimeout, keep-alive/pong/ping intervals, MissingPongOk; up to 12 (thorough 30) client events from {init, start(subscription ticks/events, query, mutation, invalid document, unparsable), stop, ping/pong or stop-unknown, invalid JSON, unknown type, second init, binary frame, terminate/close frame/abrupt close} interleaved with server-side events {emit, end, end with AddSubscriptionError, clock advance, server context cancel with/without close reason, server write completion or failure} and settle checkpoints. Monitor: nothing executes before the init handshake was accepted; per id results in emission order without duplicates, no result after error, at most one complete, nothing after complete; at settled points every received emission has its data frame, stopped/ended operations are terminated and their contexts cancelled; after the end every operation context is cancelled, no connection goroutine remains, CloseFunc fired at most once and exactly once for acknowledged connections, no frame after the close frame, no overlapping conn.Write. non-trivial = acknowledged session with at least one operation; distinct = hash of (protocol, init mode, client events, event log)",
+		Faults: "abrupt client close, close frames, protocol violations, server write failures, init rejection/stall/timeout, server shutdown, keep-alive ticks and read deadlines firing between events",
+		Assume: []string{"ids are unique per connection (the statement does not say what a server owes a client that reuses an active id)", "payload:null start messages are C10's concern"},
 	},
 }
